@@ -14,7 +14,7 @@ def parseCfg : List String → Option Config
 def parseCred : String → Option Cred
   | "validChain" => some .validChain | "wrongName" => some .wrongName | "selfSigned" => some .selfSigned
   | "otherCA" => some .otherCA | "expired" => some .expired | "wrongUsage" => some .wrongUsage | "none" => some .none
-  | "expiredRecently" => some .expiredRecently | "borrowedChain" => some .borrowedChain | "validPlusCA" => some .validPlusCA
+  | "expiredRecently" => some .expiredRecently | "hostTrusted" => some .hostTrusted | "borrowedChain" => some .borrowedChain | "validPlusCA" => some .validPlusCA
   | _ => none
 
 def showAuth : ClientAuth → String
